@@ -28,7 +28,12 @@ def stem(name):
 
 def same(ctx, rule, node, fq, what, stems, detail):
     ss = [s for s in stems]
-    if None in ss or len(set(ss)) != 1:
+    known = {x for x in ss if x is not None}
+    if len(known) <= 1 and None in ss:
+        # an identifier that names no feature kind (after a rename / a generic helper): nothing contradicts, nothing is confirmed
+        ctx.undecided(rule, node, fq, "%s: the feature kind of some operand is not recognisable from its name %s (%s)" % (what, ss, detail))
+        return False
+    if len(known) != 1:
         ctx.fail(rule, node, fq, what, "%s mixes feature kinds %s: a profile built over one feature list is indexed "
                  "against another list (%s)" % (what, ss, detail))
         return False
